@@ -49,18 +49,17 @@ func (repo *Repository) GetConfig(prefix string) (*Config, error) {
 	}
 
 	for len(out) > 0 {
-		keyEnd := bytes.IndexByte(out, '\n')
-		if keyEnd == -1 {
+		entryEnd := bytes.IndexByte(out, 0)
+		if entryEnd == -1 {
 			return nil, errors.New("invalid output from 'git config'")
 		}
-		key := string(out[:keyEnd])
-		out = out[keyEnd+1:]
-		valueEnd := bytes.IndexByte(out, 0)
-		if valueEnd == -1 {
-			return nil, errors.New("invalid output from 'git config'")
+		record := out[:entryEnd]
+		out = out[entryEnd+1:]
+		// A key without a value is listed without the LF separator.
+		key, value := string(record), ""
+		if keyEnd := bytes.IndexByte(record, '\n'); keyEnd != -1 {
+			key, value = string(record[:keyEnd]), string(record[keyEnd+1:])
 		}
-		value := string(out[:valueEnd])
-		out = out[valueEnd+1:]
 
 		ok, rest := configKeyMatchesPrefix(key, prefix)
 		if !ok {
